@@ -183,8 +183,28 @@ def _msg_disc(k, tier="quick"):
 _C01_SLOW = {"attr_error_code_l0", "attr_error_code_l3", "attr_error_code_l6", "attr_nonce_l2", "attr_nonce_l4", "attr_realm_l3", "attr_realm_l5", "attr_user_name_l2", "attr_user_name_l4",
              "attr_software_l6", "attr_padding_l5", "attr_password_algorithm_p4", 
              "attr_software_limit_510", "attr_unknown_attributes_n2", "attr_data_l5", "attr_mobility_ticket_l4", "attr_address_error_code"}
+PAREC = "Algorithm::new -> alg_new_rec and PasswordAlgorithms::add -> pa_add_rec (recording stubs: the id, the parameter length, Some/None and the parameter byte at one symbolic index are recorded where the decoder hands them over; the nested Arc<Vec<..>> storage is not built)"
+
+
+def _pa_walk(n, tier):
+    return H("stunrs", ATT + "c01_pa_walk_n%d" % n, tier=tier, timeout=1500, mem_gb=8, covers=None, stubs=[NOFMT, PAREC],
+             bounds="PASSWORD-ALGORITHMS value: every buffer of every length 0..%d bytes (up to %d entries, every parameter length / alignment that fits)" % (n, n // 4),
+             funcs=["<PasswordAlgorithms as DecodeAttributeValue>::decode", "<PasswordAlgorithm as DecodeAttributeValue>::decode", "common::padding", "common::check_buffer_boundaries"],
+             sample="entries with parameter lengths 1,2,0: offsets 0, 8, 16; value length 20")
+
+
+PAVIRT = "Algorithm::parameters -> alg_params_virtual (the parameters of list entry k are supplied by the harness: symbolic length 0..=4, symbolic bytes; the entries themselves hold None, so the list owns no nested Arc<Vec<u8>>)"
+
+
+def _pa_layout(n, tier):
+    return H("stunrs", ATT + "c01_pa_layout_n%d" % n, tier=tier, timeout=1500, mem_gb=10, covers=(1 if n >= 3 else 0), stubs=[NOFMT, PAVIRT], playback=False,
+             bounds="PASSWORD-ALGORITHMS list of %d entries, every algorithm number, every parameter length 0..4 per entry, symbolic parameter bytes; 44-byte buffer" % n,
+             funcs=["<PasswordAlgorithms as EncodeAttributeValue>::encode", "<PasswordAlgorithm as EncodeAttributeValue>::encode", "common::padding", "common::fill_padding_value"])
+
+
+_PA = [_pa_walk(16, "quick"), _pa_walk(12, "thorough"), _pa_walk(24, "thorough"), _pa_layout(3, "quick"), _pa_layout(1, "thorough"), _pa_layout(2, "thorough"), _pa_layout(4, "thorough")]
 prop("C01",
-     [_attr_h(n, "thorough" if n in _C01_SLOW else "quick") for n in _ATTR_ALL],
+     [_attr_h(n, "thorough" if n in _C01_SLOW else "quick") for n in _ATTR_ALL] + _PA,
      outside="PASSWORD-ALGORITHMS (the list kind: Arc<Vec<PasswordAlgorithm>> of Algorithm{Option<Arc<Vec<u8>>>}; every size instance, even the empty list, exhausted 14-28 GB after the D4 repair made add() go through Arc::make_mut; the harness source stays in verif_attrs.rs, unregistered; the singular PASSWORD-ALGORITHM kind is covered); strings longer than 6 bytes and non-ASCII strings (PRECIS / quoted-string behaviour stubbed on an ASCII alphabet); byte vectors > 5; lists > 2; messages with more than one attribute at message level (MESSAGE-INTEGRITY / FINGERPRINT tails: see C04/C10); the 509/510-byte limits only as concrete witnesses",
      assumptions=["AlgorithmId::Unassigned(0|1|2) and Some(&[]) parameters are wire aliases of Reserved/MD5/SHA256 and None and are outside the documented domain"])
 DESCR["C01"] = {
